@@ -174,7 +174,7 @@ def run(tier="quick", seed=0, replay_path=None):
             lay = next((l for l, o in zip(c["layouts"], tr["obs"]) if o["label"] == label), None)
             # report every failing layout of this program? the validator names the first; keep the case small
             pub = {"q": c["q"], "sc": c["sc"], "dseed": c["dseed"], "nrows": c["nrows"], "presorted": c.get("presorted", False), "layouts": [lay] if lay else c["layouts"][:1],
-                   "ops": rel.ops_of(c["q"]), "layout": lay, "groupby_fs": rel.groupby_fs(c["q"])}
+                   "ops": rel.ops_of(c["q"]), "layout": lay, "groupby_fs": rel.groupby_fs(c["q"]), "errmsg": tr["msgs"].get(label, "")}
             if cl == "Sorted" or (not label and clause == "Sorted"):
                 # which layouts of this program feed the sort a partition without any non-null key? (F27)
                 flags = []
